@@ -75,7 +75,7 @@ def Row.locks (r : Row) : List String := r.2.2.2.2.2
 def frozen (rows : List Row) (ty f : String) : Bool :=
   rows.all fun r => !(r.ty == ty && r.field == f && r.kind == "w" && r.cls != "init")
 
-def isWrite (k : String) : Bool := k == "w" || k == "cw"
+def isWrite (k : String) : Bool := k == "w" || k == "cw" || k == "cm"
 
 /-- one access site obeys the discipline its field's mode demands -/
 def rowOK (rows : List Row) (mode : String) (r : Row) : Bool :=
